@@ -499,17 +499,23 @@ def methods_of(f, sname, skip_traits=("fmt::Debug", "PartialEq", "Eq", "::core::
             aliases["Self::" + k] = "".join(t[1] for t in toks)
     return ms, aliases
 
-def add_nested(methods, parent, names, macros):
-    """nested `fn` items of `parent` become functions of the unit (called by their bare name)"""
+def add_nested(methods, parent, names, macros, skip=()):
+    """nested `fn` items of `parent` become functions of the unit (called by their bare name); names=None: all of them"""
     if parent not in methods:
         return
+    if names is None:
+        try:
+            stmts, tail = rsfront.parse_body(methods[parent].body, macros)
+        except Exception:
+            return
+        names = [st[1].name for st in stmts if st[0] == "fn" and st[1].name not in skip]
     for n in names:
         try:
             fn = nested_fn(methods[parent], n, macros)
         except Unsupported:
             continue
         if n in methods:
-            raise Unsupported(f"nested fn {n} clashes with a method")
+            raise Unsupported(f"nested fn {n} clashes with another function of the unit")
         methods[n] = fn
 
 def build_units_hc(repo):
@@ -542,6 +548,8 @@ def build_units_hc(repo):
     sinfo = StructInfo("Hc128Core", "Hc128.Core", {"t": (("arr", "u32", 1024), "t"), "counter1024": ("nat", "counter")})
     prims = {"read_u32_into": prim_read_into(32), "le::read_u32_into": prim_read_into(32), "@bytes_types": ()}
     cm = dict(methods)
+    for parent in list(methods):
+        add_nested(cm, parent, None, macros, skip=tuple(ms))      # other nested helpers (none on the pinned source)
     cm.update(ms)              # f1, f2 are called by init; their definitions are those of the unit Hc128Fns
     u = Unit("Hc128Core", sinfo, cm, consts, macros, prims, "Rngs.Ext.Hc128Core", aliases, vals)
     u.extern = {n: "Rngs.Ext.Hc128Fns." + n for n in ms}
@@ -616,8 +624,8 @@ def build_units_isaac(repo):
                 raise Unsupported(f"the state of {sname} is not (mem: [w{w}; 256], a, b, c: w{w}): {fields}")
             sinfo = StructInfo(sname, f"Isaac.Core {w}", {"mem": (fields["mem"], "mem"), "a": (fields["a"], "a"),
                                                            "b": (fields["b"], "b"), "c": (fields["c"], "c")})
-            add_nested(methods, "generate", ["ind", "rngstep"], macros)
-            add_nested(methods, "init", ["mix"], macros)
+            for parent in list(methods):
+                add_nested(methods, parent, None, macros)      # on the pinned source: ind, rngstep (generate), mix (init)
             prims = {"read_u32_into": prim_read_into(32), "le::read_u32_into": prim_read_into(32),
                      "read_u64_into": prim_read_into(64), "le::read_u64_into": prim_read_into(64), "@bytes_types": ()}
             u = Unit(sname, sinfo, methods, consts, macros, prims, f"Rngs.Ext.{sname}", aliases, vals)
